@@ -29,12 +29,14 @@ int main(int argc, char** argv) {
         ctx.begin_case(c.id);
         uint64_t h0 = module_hash(mod);
         std::string err;
-        for (int al = 0; al < 2 && err.empty(); ++al) {  // 64-byte aligned buffers, then every buffer at a different odd multiple of 8
-          ExecOpts eo; eo.prefill = 1;
-          if (al) for (int i = 0; i < 12; ++i) eo.off[i] = 8 * (2 * (i % 4) + 1);
+        // alignment patterns: all buffers 64-byte aligned; every buffer at a different odd multiple of 8; sources aligned and
+        // outputs / scratch not; the converse (a code path keyed to the alignment of one argument can touch another)
+        for (int al = 0; al < 4 && err.empty(); ++al) {
+          ExecOpts eo; eo.prefill = 1; eo.protect_inputs = true;  // pure sources are read-only mappings during the call
+          for (int i = 0; i < 12 && i < (int)c.bufs.size(); ++i) { bool src = c.bufs[i].role == R_IN; if (al == 1 || (al == 2 && !src) || (al == 3 && src)) eo.off[i] = 8 * (2 * (i % 4) + 1); }
           execute(c, eo, r);
           err = judge_model(c, r, false, true);
-          if (err.empty() && module_hash(mod) != h0) err = sfmt("the MODULE or one of its precomputed tables was modified by the call (%s buffers)", al ? "unaligned" : "64-byte aligned");
+          if (err.empty() && module_hash(mod) != h0) err = sfmt("the MODULE or one of its precomputed tables was modified by the call (alignment pattern %d)", al);
         }
         if (!err.empty()) ctx.violation(c.id, err);
         int nsrc = 0;
@@ -58,9 +60,9 @@ int main(int argc, char** argv) {
       ctx.begin_case(c.id);
       uint64_t h0 = ki.table ? fnv(ki.table, ki.table_bytes) : 0;
       std::string err;
-      for (int al = 0; al < 2 && err.empty(); ++al) {
-        ExecOpts eo; eo.prefill = 1;
-        if (al) for (int i = 0; i < 12; ++i) eo.off[i] = 8 * (2 * (i % 4) + 1);
+      for (int al = 0; al < 4 && err.empty(); ++al) {
+        ExecOpts eo; eo.prefill = 1; eo.protect_inputs = true;
+        for (int i = 0; i < 12 && i < (int)c.bufs.size(); ++i) { bool src = c.bufs[i].role == R_IN; if (al == 1 || (al == 2 && !src) || (al == 3 && src)) eo.off[i] = 8 * (2 * (i % 4) + 1); }
         execute(c, eo, r);
         err = judge_model(c, r, false, true);
         if (err.empty() && ki.table && fnv(ki.table, ki.table_bytes) != h0) err = "the precomputed table was modified by the call";
